@@ -104,7 +104,12 @@ Verdict prop(Tape& t, Run& run) {
 
 	NifFile nif;
 	nif.Create(ver.ni());
-	NiShape* shape = nif.CreateShapeFromData("Shape", &m.verts, &m.tris, m.uvs.empty() ? nullptr : &m.uvs, m.norms.empty() ? nullptr : &m.norms);
+	// no UVs: either no list at all or (odd vertex counts) an empty list - the second switches the
+	// UV channel of a BSTriShape off, so that a later SetUvsForShape has to switch it on again
+	const bool emptyUvList = m.uvs.empty() && (m.verts.size() & 1);
+	if (emptyUvList)
+		run.cls("created-with-an-empty-uv-list");
+	NiShape* shape = nif.CreateShapeFromData("Shape", &m.verts, &m.tris, m.uvs.empty() ? (emptyUvList ? &m.uvs : nullptr) : &m.uvs, m.norms.empty() ? nullptr : &m.norms);
 	const std::string kind = shape ? shape->GetBlockName() : "null";
 	const std::string sigBase = std::string("C13:") + kind + "@" + ver.name;
 	auto detail = [&](const std::string& what) {
